@@ -244,6 +244,9 @@ def shape_family(tier):  # noqa: C901
                 yield "reshape", ["reshape", ph("a", shape, "int32"), [2, -1], "F"]
                 yield "reshape", ["reshape", ph("a", shape, "int32"), [-1, 2], "C"]
             yield "reshape", ["reshape", ph("a", shape, "int32"), size, "C"]
+    for order in "cf":      # (NumPy accepts the order in lower case as well)
+        yield "reshape", ["reshape", ph("a", (2, 3), "float64"), [3, 2], order]
+        yield "reshape", ["reshape", ph("a", (2, 3, 2), "int32"), [4, 3], order]
     # expand_dims / squeeze / broadcast_to
     for shape in [(3,), (2, 3), ()]:
         for ax in range(-len(shape) - 1, len(shape) + 1):
